@@ -735,10 +735,16 @@ Redir:
 }
 
 func (l *lexer) lexHeredoc() action {
+	pos := l.pos
 	if !l.scanHeredoc() {
 		return nil
 	}
-	return l.lexToken('\n')
+	// the <newline> stands before the here-documents
+	next := l.pos
+	l.pos = pos
+	action := l.lexToken('\n')
+	l.pos = next
+	return action
 }
 
 // scanHeredoc scans the here-documents which are pending at a <newline>.
